@@ -54,11 +54,15 @@ def confirm(src, sid, prop):
         print('suite with change:', last)
         if rc != 0 or '1468 passed' not in last:
             return False
+        hook = os.environ.get('SEED_HOOK')
+        if hook:    # demo needs the BTREES_VERIF=1 build (suite above ran on the normal build)
+            rc, out = sh('BTREES_VERIF=1 %s setup.py -q build_ext -i -j16 --force' % PY, cwd=wt)
+            meta['ran'].append(['BTREES_VERIF=1 setup.py build_ext -i --force (for demo)', rc])
         rc1, out1 = sh('%s %s/demo.py' % (PY, os.path.abspath(src)), cwd=wt, env=env, timeout=900)
         meta['ran'].append(['demo.py with change', rc1, out1.strip().splitlines()[-1:] ])
         print('demo with change: rc=%s %s' % (rc1, out1.strip().splitlines()[-1:]))
         sh('git checkout -- .', cwd=wt)
-        rc, out = sh('%s setup.py -q build_ext -i -j16' % PY, cwd=wt)
+        rc, out = sh('%s%s setup.py -q build_ext -i -j16 --force' % ('BTREES_VERIF=1 ' if hook else '', PY), cwd=wt)
         rc0, out0 = sh('%s %s/demo.py' % (PY, os.path.abspath(src)), cwd=wt, env=env, timeout=900)
         meta['ran'].append(['demo.py without change', rc0, out0.strip().splitlines()[-1:]])
         print('demo without change: rc=%s %s' % (rc0, out0.strip().splitlines()[-1:]))
